@@ -232,6 +232,28 @@ def check(run, repo, world):
                 if l == "T" and m.kind == "stmt" and unparse(m.ast) == \
                         "unlock_required = True":
                     ok = True
+    if not ok:
+        # the same as one question about all locations:
+        # `if any(l.type_ == MemoryType.NVM_RW_L for l in cls.locations)`
+        for n in cfg.reachable:
+            t_ = n.ast if n.kind == "test" else None
+            if isinstance(t_, ast.Call) and unparse(t_.func) == "any" and \
+                    len(t_.args) == 1 and isinstance(
+                        t_.args[0], (ast.GeneratorExp, ast.ListComp)) and \
+                    len(t_.args[0].generators) == 1 and not \
+                    t_.args[0].generators[0].ifs and unparse(
+                        t_.args[0].generators[0].iter) == "cls.locations" \
+                    and isinstance(t_.args[0].generators[0].target,
+                                   ast.Name):
+                v_ = t_.args[0].generators[0].target.id
+                if unparse(t_.args[0].elt) in (
+                        "%s.type_ == MemoryType.NVM_RW_L" % v_,
+                        "MemoryType.NVM_RW_L == %s.type_" % v_,
+                        "%s.type_ is MemoryType.NVM_RW_L" % v_):
+                    for (l, m) in n.succ:
+                        if l == "T" and m.kind == "stmt" and unparse(
+                                m.ast) == "unlock_required = True":
+                            ok = True
     if not ok and sem is not None:
         ok = {m_ for m_, (refused, unl) in sem.items()
               if unl and not refused} == {"NVM_RW_L"}
